@@ -59,27 +59,43 @@ def insertSorted (x : Str × Str) : List (Str × Str) → List (Str × Str)
   | [] => [x]
   | y :: ys => if leStr x.1 y.1 then x :: y :: ys else y :: insertSorted x ys
 
-/-- load_dropins_from (after D9): drop-ins are merged one by one in name order; the first one that fails
-    to load stops the merge — what was merged before it stays merged (the caller records the error and
-    converts the unit anyway). Returns the unit and whether a failure occurred. -/
-def loadDropins (t : Tree) (q : QUnit) : QUnit × Bool :=
-  let dirs := allDirs t
-  let n := q.name
-  let dd := dirs.map (fun d => d ++ '/' :: n ++ s ".d")
+/-- the drop-in directories of a unit, in priority order: `<dir>/<unit>.d` of every directory of the search order, then —
+    for a template instance — `<dir>/<base>@.<type>.d` of every directory (the base ends at the first '@') -/
+def dropinDirs (dirs : List Str) (n : Str) : List Str :=
+  dirs.map (fun d => d ++ '/' :: n ++ s ".d")
     ++ (match templateParts n with
         | (some b, some _) => dirs.map (fun d => d ++ '/' :: b ++ s "@." ++ extension n ++ s ".d")
         | _ => [])
-  let confs := dd.foldl (fun (acc : List (Str × Str)) d =>
-    (t.files.filter fun (p, _) => isUnder d p && p != d && extension (fileName p) == s "conf").foldl
-      (fun acc (p, _) => if acc.any (·.1 == fileName p) then acc else acc ++ [(fileName p, d ++ '/' :: fileName p)]) acc) []
-  let sorted := confs.foldl (fun acc c => insertSorted c acc) []
-  sorted.foldl (fun (acc : QUnit × Bool) (c : Str × Str) =>
-    if acc.2 then acc else
-    match t.files.lookup c.2 with
-    | none => (acc.1, true)                    -- nested drop-in: the code builds a path that does not exist
-    | some content => match Parse.parse parseEnv content with
-      | .ok du => ({ acc.1 with unit := mergeFrom acc.1.unit du }, false)
-      | .error _ => (acc.1, true)) (q, false)
+
+/-- the names of the `*.conf` files found in (or below) one drop-in directory, in listing order -/
+def confsIn (t : Tree) (d : Str) : List Str :=
+  (t.files.filter fun (p, _) => isUnder d p && p != d && extension (fileName p) == s "conf").map fun p => fileName p.1
+
+/-- a name that was already found in an earlier directory is hidden -/
+def addConf (d : Str) (acc : List (Str × Str)) (name : Str) : List (Str × Str) :=
+  if acc.any (·.1 == name) then acc else acc ++ [(name, d ++ '/' :: name)]
+
+def collectStep (t : Tree) (acc : List (Str × Str)) (d : Str) : List (Str × Str) := (confsIn t d).foldl (addConf d) acc
+
+/-- (name, path) of the drop-ins that survive, in order of discovery -/
+def collectConfs (t : Tree) (dd : List Str) : List (Str × Str) := dd.foldl (collectStep t) []
+
+def sortConfs (confs : List (Str × Str)) : List (Str × Str) := confs.foldl (fun acc c => insertSorted c acc) []
+
+/-- merging one drop-in; the first one that fails to load stops the merge — what was merged before it stays merged
+    (the caller records the error and converts the unit anyway) -/
+def mergeStep (t : Tree) (acc : QUnit × Bool) (c : Str × Str) : QUnit × Bool :=
+  if acc.2 then acc else
+  match t.files.lookup c.2 with
+  | none => (acc.1, true)                    -- nested drop-in: the code builds a path that does not exist
+  | some content => match Parse.parse parseEnv content with
+    | .ok du => ({ acc.1 with unit := mergeFrom acc.1.unit du }, false)
+    | .error _ => (acc.1, true)
+
+/-- load_dropins_from (after D9): collect from all drop-in directories (first directory wins per name), sort by name,
+    merge in that order. Returns the unit and whether a failure occurred. -/
+def loadDropins (t : Tree) (q : QUnit) : QUnit × Bool :=
+  (sortConfs (collectConfs t (dropinDirs (allDirs t) q.name))).foldl (mergeStep t) (q, false)
 
 structure RunOut where
   services : List (QUnit × Out)
